@@ -469,7 +469,14 @@ theorem Q_handleChangePw (c : Cfg) (n : Val) (s : St) (h : PInv c n s) : PInv c 
           obtain ⟨_, _, y, hy, hu, hp⟩ := hax
           refine ⟨h.1, ?_, h.2.2.1, h.2.2.2.1, h.2.2.2.2.1, h.2.2.2.2.2⟩
           apply creds_set_ok (CredOK c) _ _ _ h.2.1
-          exact ⟨by rw [hu]; exact known_user c y hy, by rw [hp]; exact known_newPw c y hy, fun ip hh => by cases hh⟩
+          refine ⟨by rw [hu]; exact known_user c y hy, by rw [hp]; exact known_newPw c y hy, fun ip hh => ?_⟩
+          simp only [] at hh
+          cases hg : s.creds.get x.act.node with
+          | none => rw [hg] at hh; cases hh
+          | some old =>
+            rw [hg] at hh
+            obtain ⟨e, he, hee⟩ := creds_get_mem _ _ _ hg
+            exact (h.2.1 e he).2.2 ip (by rw [hee]; exact hh)
         · exact h
 
 theorem Q_preGuard (c : Cfg) (n : Val) (s : St) (h : PInv c n s) : PInv c n (preGuardHandlers c s) :=
@@ -692,7 +699,7 @@ theorem init_pick (c : Cfg) (d0 : Int) (k : Nat) (s0 : St) (h0 : init c d0 k = s
   split at h0
   · rename_i hv
     cases h0
-    obtain ⟨v1, e1⟩ := Option.isSome_iff_exists.1 hv.2
+    obtain ⟨v1, e1⟩ := Option.isSome_iff_exists.1 hv.2.1
     refine ⟨by rw [e1]; rfl, rfl, (fun e he => by cases he), actOK_nothing c _, (fun x hx => by cases hx),
       (fun x hx => hx), (fun x hx => by cases hx)⟩
   · cases h0
